@@ -15,29 +15,30 @@ EXTENDS GenG1, G1Findings
 M == INSTANCE Modify
 
 SEC == ".text"
-St0 == AbsState(shape)
-Blocks0 == St0.secs[1].blocks
-NB == Len(Blocks0)
+\* TLC re-evaluates a state-level definition at every use, so everything below
+\* takes the input blocks (B0) and facts (F0) as parameters and RunModel binds
+\* them once per state in a LET.
 
 (***************************************************************************)
 (* the CFG of the input listing, at block level                            *)
 (***************************************************************************)
-W0 == [E |-> [x \in {SEC} |-> Flat(St0.secs[1])], P |-> [x \in {SEC} |-> PosSeq(Flat(St0.secs[1]))], reqs |-> <<>>]
-F0 == CfgFacts(W0, {SEC}, {})
-LastPos(i) == Blocks0[i].p + Blocks0[i].units[Len(Blocks0[i].units)].o
-BlockAt(p) == CHOOSE i \in 1..NB : Blocks0[i].p = p /\ Blocks0[i].n > 0
-InitCfg ==
-  LET all == F0.ft \cup F0.bc \cup F0.ret
+W0(sec) == LET fl == Flat(sec) IN [E |-> [x \in {SEC} |-> fl], P |-> [x \in {SEC} |-> PosSeq(fl)], reqs |-> <<>>]
+FactsOf(sec) == CfgFacts(W0(sec), {SEC}, {})
+InitCfg(Blocks0, F0) ==
+  LET NB == Len(Blocks0)
+      LastPos(i) == Blocks0[i].p + Blocks0[i].units[Len(Blocks0[i].units)].o
+      BlockAt(p) == CHOOSE i \in 1..NB : Blocks0[i].p = p /\ Blocks0[i].n > 0
+      all == F0.ft \cup F0.bc \cup F0.ret
       inter == {e \in all : \E i \in 1..NB : Blocks0[i].k = "code" /\ Blocks0[i].units # <<>> /\ e.s[2] = LastPos(i)}
       seq == SetToSeq(inter)
       src(e) == CHOOSE i \in 1..NB : Blocks0[i].k = "code" /\ Blocks0[i].units # <<>> /\ e.s[2] = LastPos(i)
   IN  {[s |-> M!B(src(seq[k])),
         t |-> IF seq[k].d[1] = "i" THEN M!B(BlockAt(seq[k].d[3])) ELSE M!P(k),
         ty |-> seq[k].ty, c |-> seq[k].c, d |-> seq[k].dr] : k \in DOMAIN seq}
-NInitProxies == Cardinality(F0.ft \cup F0.bc \cup F0.ret)
-
-IrOfShape ==
-  LET sec == St0.secs[1]
+IrOfShape(sec, F0) ==
+  LET Blocks0 == sec.blocks
+      NB == Len(Blocks0)
+      NInitProxies == Cardinality(F0.ft \cup F0.bc \cup F0.ret)
       names == UNION {Range(Blocks0[i].ss) \cup Range(Blocks0[i].es) : i \in 1..NB}
       ref(nm) == LET i == CHOOSE j \in 1..NB : nm \in Range(Blocks0[j].ss) \cup Range(Blocks0[j].es)
                  IN  [ref |-> M!B(i), e |-> nm \in Range(Blocks0[i].es), base |-> nm]
@@ -45,7 +46,7 @@ IrOfShape ==
        units |-> [i \in 1..NB |-> [j \in 1..Len(Blocks0[i].units) |-> UnitItem(sec, Blocks0[i], Blocks0[i].units[j])]],
        kind |-> [i \in 1..NB |-> Blocks0[i].k],
        sym |-> [nm \in names |-> ref(nm)],
-       cfg |-> InitCfg,
+       cfg |-> InitCfg(Blocks0, F0),
        fn |-> [i \in 1..NB |-> IF Blocks0[i].fn = <<>> THEN "" ELSE Blocks0[i].fn[1]],
        ent |-> {i \in 1..NB : Blocks0[i].ent # <<>>},
        next |-> NB + 1, nextp |-> NInitProxies + 1]
@@ -111,9 +112,9 @@ UnitIndexAt(ir, id, off) ==
       c == {k \in 0..Len(us) : pre[k] = off}
   IN  IF c = {} THEN 0 - 1 ELSE CHOOSE k \in c : TRUE
 
-RECURSIVE ApplyReqs(_, _, _, _, _)
-\* acc = [ir, ok (no assertion tripped), err (exception name)]
-ApplyReqs(acc, orig, actual, total, rs) ==
+RECURSIVE ApplyReqs(_, _, _, _, _, _)
+\* acc = [ir, err (exception name)]
+ApplyReqs(Blocks0, acc, orig, actual, total, rs) ==
   IF rs = <<>> \/ acc.err # "" THEN acc
   ELSE LET r == Head(rs)
            ir == acc.ir
@@ -127,24 +128,22 @@ ApplyReqs(acc, orig, actual, total, rs) ==
            IN  IF k < 0 \/ k2 < 0 THEN [acc EXCEPT !.err = "ModelOffsetError"]
                ELSE IF r.op = "del"
                THEN LET res == M!Delete(ir, actual, k, k2 - k, r.proxy)
-                    IN  ApplyReqs([acc EXCEPT !.ir = res.ir, !.err = IF res.assertOk THEN "" ELSE "AssertionError"],
+                    IN  ApplyReqs(Blocks0, [acc EXCEPT !.ir = res.ir, !.err = IF res.assertOk THEN "" ELSE "AssertionError"],
                                   orig, res.last, total - r.len, Tail(rs))
                ELSE IF ~PatchAssembles(ir, r) THEN [acc EXCEPT !.err = "UnsupportedAssemblyError"]
                ELSE IF ByteSize(ir, actual) = 0 THEN [acc EXCEPT !.err = "AssertionError"]   \* assert block.size
                ELSE LET b0 == Blocks0[orig]
                         code == PatchCode(ir, r, b0.fn, b0.k)
                         res == M!Insert(ir, actual, k, k2 - k, code)
-                    IN  ApplyReqs([acc EXCEPT !.ir = res.ir, !.err = IF res.assertOk THEN "" ELSE "AssertionError"],
+                    IN  ApplyReqs(Blocks0, [acc EXCEPT !.ir = res.ir, !.err = IF res.assertOk THEN "" ELSE "AssertionError"],
                                   orig, res.last, total + r.patch.n - r.len, Tail(rs))
 
-RS == TraceReqs(St0, reqs)
-ReqsOfBlock(i) == SortSeq(SelectSeq(RS, LAMBDA r : r.u = i), LAMBDA a, b : a.off < b.off \/ (a.off = b.off /\ a.id < b.id))
-RECURSIVE ApplyBlocks(_, _)
-ApplyBlocks(acc, i) ==
-  IF i > NB \/ acc.err # "" THEN acc
-  ELSE LET rs == ReqsOfBlock(i)
-       IN  ApplyBlocks(IF rs = <<>> THEN acc ELSE ApplyReqs(acc, i, i, 0, rs), i + 1)
-ApplyB == ApplyBlocks([ir |-> IrOfShape, err |-> ""], 1)
+ReqsOfBlock(RS, i) == SortSeq(SelectSeq(RS, LAMBDA r : r.u = i), LAMBDA a, b : a.off < b.off \/ (a.off = b.off /\ a.id < b.id))
+RECURSIVE ApplyBlocks(_, _, _, _)
+ApplyBlocks(Blocks0, RS, acc, i) ==
+  IF i > Len(Blocks0) \/ acc.err # "" THEN acc
+  ELSE LET rs == ReqsOfBlock(RS, i)
+       IN  ApplyBlocks(Blocks0, RS, IF rs = <<>> THEN acc ELSE ApplyReqs(Blocks0, acc, i, i, 0, rs), i + 1)
 
 (***************************************************************************)
 (* Level-B result -> the projection format, so that every Level-A clause   *)
@@ -174,7 +173,7 @@ ProjectB(ir) ==
       fseq == SetToSeq(fnames)
   IN  [secs |-> <<[name |-> SEC, size |-> Sum([i \in 1..Len(ord) |-> ByteSize(ir, ord[i])]),
                    bytes |-> FlattenSeq([i \in 1..Len(ord) |-> FlattenSeq([k \in 1..Len(ir.units[ord[i]]) |-> ir.units[ord[i]][k].by])]),
-                   blocks |-> [i \in 1..Len(ord) |-> blk(ord[i])], iann |-> <<>>, sxout |-> <<>>, noaddr |-> 0]>>,
+                   blocks |-> [i \in 1..Len(ord) |-> blk(ord[i])], iann |-> <<>>, sxout |-> <<>>, gaps |-> <<>>, noaddr |-> 0]>>,
        syms |-> LET ns == SetToSeq(DOMAIN ir.sym)
                 IN  [i \in 1..Len(ns) |->
                        LET s == ir.sym[ns[i]]
@@ -189,31 +188,53 @@ ProjectB(ir) ==
        fns |-> [i \in 1..Len(fseq) |-> [name |-> fseq[i], hasb |-> TRUE, hase |-> TRUE, hasn |-> TRUE, stale |-> 0,
                                          blocks |-> <<>>, entries |-> <<>>]]]
 
-Pre == LET p == ProjectB(IrOfShape)
-       IN  [secs |-> St0.secs, syms |-> p.syms, edges |-> p.edges, fns |-> p.fns]
-Result == ApplyB
-T == [pre |-> Pre, reqs |-> RS, post |-> ProjectB(Result.ir), exc |-> Result.err, stage |-> "apply"]
+(***************************************************************************)
+(* one complete run of the model for (shape, reqs), judged by the Level-A  *)
+(* clauses; computed once per state and kept in the variable `ver`         *)
+(***************************************************************************)
+RunModel(sh, rq) ==
+  LET st0 == AbsState(sh)
+      sec == st0.secs[1]
+      f0 == FactsOf(sec)
+      ir0 == IrOfShape(sec, f0)
+      RS == TraceReqs(st0, rq)
+      res == ApplyBlocks(sec.blocks, RS, [ir |-> ir0, err |-> ""], 1)
+      p0 == ProjectB(ir0)
+      T == [pre |-> [secs |-> st0.secs, syms |-> p0.syms, edges |-> p0.edges, fns |-> p0.fns],
+            reqs |-> RS, post |-> ProjectB(res.ir), exc |-> res.err, stage |-> "apply"]
+      X == Ctx(T)
+      K == CfgK(X)
+      Excused(clause) == KfTags(X, K, clause) # {}
+      Done == T.exc = ""
+  IN  [completes |-> (T.exc # "" => Excused("C01_Completes")) /\ T.exc # "ModelOffsetError",
+       exc |-> T.exc,
+       bytes |-> Done => C01_Bytes(X),
+       syms |-> Done => /\ (C02_Positions(X) \/ Excused("C02_Positions"))
+                        /\ (C02_Proxy(X) \/ Excused("C02_Proxy"))
+                        /\ C02_PatchLabels(X),
+       fn |-> Done => C06_Attribution(X) /\ C06_Entries(X),
+       nodead |-> Done => T.post.dead = 0,
+       precfg |-> f0.wellformed => K.preOk,
+       cfgdom |-> Done /\ K.dom,
+       cfg |-> (Done /\ K.dom) =>
+                 /\ (C03_Fallthrough(K) \/ Excused("C03_Fallthrough"))
+                 /\ C03_BranchCall(K)
+                 /\ (C03_Returns(K) \/ Excused("C03_Returns"))
+                 /\ C03_NoBuriedTerminator(X)]
 
-(***************************************************************************)
-(* invariants: the Level-A clauses on the model's result                   *)
-(***************************************************************************)
-Excused(X, K, clause) == KfTags(X, K, clause) # {}
-XX == Ctx(T)
-KK == CfgK(XX)
-Done == T.exc = ""
-Inv_Completes == (T.exc # "" => Excused(XX, KK, "C01_Completes")) /\ T.exc # "ModelOffsetError"
-Inv_Bytes == Done => C01_Bytes(XX)
-Inv_Syms == Done => /\ (C02_Positions(XX) \/ Excused(XX, KK, "C02_Positions"))
-                    /\ (C02_Proxy(XX) \/ Excused(XX, KK, "C02_Proxy"))
-                    /\ C02_PatchLabels(XX)
-Inv_Fn == Done => C06_Attribution(XX) /\ C06_Entries(XX)
-Inv_NoDeadEdges == Done => T.post.dead = 0
-Inv_PreCfg == F0.wellformed => KK.preOk
-Inv_Cfg == (Done /\ KK.dom) =>
-              /\ (C03_Fallthrough(KK) \/ Excused(XX, KK, "C03_Fallthrough"))
-              /\ C03_BranchCall(KK)
-              /\ (C03_Returns(KK) \/ Excused(XX, KK, "C03_Returns"))
-              /\ C03_NoBuriedTerminator(XX)
-ModelRefines == Inv_Completes /\ Inv_Bytes /\ Inv_Syms /\ Inv_Fn /\ Inv_NoDeadEdges /\ Inv_PreCfg /\ Inv_Cfg
-InvB == ModelRefines /\ (Emit => PrintT("CASE " \o ToJson(CaseJson)))
+VARIABLE ver
+varsB == <<vars, ver>>
+InitB == Init /\ ver = RunModel(shape, reqs)
+NextB == Next /\ ver' = RunModel(shape', reqs')
+SpecB == InitB /\ [][NextB]_varsB
+
+Inv_Completes == ver.completes
+Inv_Bytes == ver.bytes
+Inv_Syms == ver.syms
+Inv_Fn == ver.fn
+Inv_NoDeadEdges == ver.nodead
+Inv_PreCfg == ver.precfg
+Inv_Cfg == ver.cfg
+\* vacuity guards: some run completes and has a well-formed CFG (checked as the
+\* negation being violated in a separate config is unnecessary: -coverage shows it)
 =============================================================================
